@@ -366,6 +366,31 @@ def _expressionize(body, env=None, depth=0):
     return ast.Constant(value=None)
 
 
+def _foreign_method_names():
+    """method names of the builtin and standard-library types the package
+    handles all the time; a call `recv.<name>(...)` on a receiver whose class
+    is not known is never resolved to a package helper of that name."""
+    import asyncio
+    import collections
+    import logging
+    import socket
+    import weakref
+
+    names = set()
+    for t in (dict, list, set, frozenset, tuple, str, bytes, bytearray, int, float, memoryview, object,
+              collections.deque, collections.OrderedDict, collections.defaultdict, collections.Counter,
+              asyncio.Future, asyncio.Task, asyncio.Queue, asyncio.Event, asyncio.Lock, asyncio.Semaphore,
+              asyncio.AbstractEventLoop, asyncio.BaseTransport, asyncio.Transport, asyncio.DatagramTransport,
+              asyncio.BaseProtocol, asyncio.Protocol, asyncio.DatagramProtocol, asyncio.TimerHandle, asyncio.Handle,
+              asyncio.StreamReader, asyncio.StreamWriter, asyncio.AbstractServer,
+              logging.Logger, socket.socket, weakref.WeakValueDictionary, weakref.WeakKeyDictionary, weakref.WeakSet):
+        names.update(n for n in dir(t) if not n.startswith("__"))
+    return frozenset(names)
+
+
+_FOREIGN_METHOD_NAMES = _foreign_method_names()
+
+
 class Inliner:
     def __init__(self, modules, depth=4):
         self.modules = modules  # name -> model.Module
@@ -479,6 +504,10 @@ class Inliner:
                         return h, None
             # other receiver: unique new method of that name in the package
             cands = [h for h in self.by_name.get(f.attr, []) if h.kind == "method"]
+            if f.attr in _FOREIGN_METHOD_NAMES:
+                # `x.pop(...)` on an untyped receiver is far more likely the
+                # container's own method than a new package method of that name
+                cands = []
             if len(cands) == 1 and not self._overridden(cands[0].clsqn, f.attr):
                 # the name must not also be a baseline method of some class
                 if not any(f.attr in ms and c != cands[0].clsqn for c, ms in self.class_methods.items()):
